@@ -6,10 +6,15 @@ PROPS = {}
 
 
 def rbytes(rng, n):
-    """n bytes with varied texture: uniform random, constant (0x00 / 0xFF / a repeated value), runs, ramps."""
+    """n bytes with varied texture: uniform random, constant (0x00 / 0xFF / a repeated value), runs, ramps,
+    and 'length-like' content (every byte is the number of bytes that follow it, i.e. the data mimics a
+    length prefix at every position)."""
     k = rng.random()
-    if k < 0.55:
+    if k < 0.49:
         return [rng.randint(0, 255) for _ in range(n)]
+    if k < 0.55:
+        m = rng.choice([128, 256])
+        return [(n - 1 - i) % m for i in range(n)]
     if k < 0.65:
         return [255] * n
     if k < 0.72:
@@ -780,6 +785,21 @@ def rand_c10(seed, tier, cases=None):
     # one unit longer than 65535 bytes (the AVC length prefix has four bytes)
     big = [0x65] + [(i * 7) % 250 + 1 for i in range(70000 - 1)]
     out.append(dict(fam="C10", kind="payloader", mtu=1500, stapa=True, calls=[dict(units=[big], scs=[4])], **{"class": "giant_unit"}))
+    # two generations of parameter sets where the second pair is a re-split of the first pair's serialised
+    # form (prefix of the old SPS; new PPS ends with the old PPS and embeds its length field): contents that
+    # mimic the framing, same combined length or not
+    for k in (1, 2, 3, 4):
+        for j in (1, 2):
+            for n2 in (4, 260):
+                sps1 = _nal(7, 3, rng.randint(6, 12), rng)
+                sps1[-1] = 0x68
+                pps1 = _nal(8, 3, n2, rng)
+                sps2 = sps1[:len(sps1) - k]
+                pps2 = [0x68] * j + [len(pps1) >> 8, len(pps1) & 255] + pps1
+                idr = _nal(5, 3, 20, rng)
+                out.append(dict(fam="C10", kind="payloader", mtu=1200, stapa=True,
+                                calls=[dict(units=[sps1, pps1, idr], scs=[4, 4, 4]), dict(units=[sps2, pps2, idr], scs=[4, 4, 4]), dict(units=[sps1, pps1, idr], scs=[3, 3, 3])],
+                                **{"class": "params_resplit_generations"}))
     for _ in range(2000 if tier == "quick" else 20000):
         mtu = rng.choice([3, 4, 5, 6, 9, 17, 33, 100, 1200, rng.randint(3, 300)])
         stap = rng.random() < 0.6
@@ -817,12 +837,12 @@ prop(dict(
     workers=16,
     nontrivial=lambda c: True,
     mandatory=["one_unit_fragmented", "one_unit_single", "one_unit_single_param", "one_unit_fragmented_dropped", "params_one_call", "params_across_calls",
-               "params_across_calls_stap_exceeds_mtu", "params_with_aud_filler", "params_one_call_nostap", "decoder_stap", "decoder_fu4", "decoder_fu_empty_fragments", "rand_payloader"],
+               "params_across_calls_stap_exceeds_mtu", "params_with_aud_filler", "params_one_call_nostap", "decoder_stap", "decoder_fu4", "decoder_fu_empty_fragments", "rand_payloader", "params_resplit_generations"],
     rule="TLC enumerates payloader scenarios: one unit of every type {1,5,6,7,8,9,12,23} x sizes {2,3,MTU-2..MTU+2,2MTU-3..2MTU,3MTU} x MTU {3,4,5,8,16,40,1200} x StapA on/off; SPS/PPS "
          "pairs (either order) and a slice in one call, split over two and three calls, and with AUD/filler around them, with sizes that make the STAP-A fit or exceed the MTU; decoder streams "
          "from the independent encoder (singles, STAP-A groupings, FU-A with 2/4 fragments, empty fragments, one-byte tail); every payloader output is also fed to real Annex-B and AVC receivers; "
          "seeded random scenarios are added; distinct = distinct case records",
-    assumptions=COMMON_ASSUME + ["unit bytes contain no zero byte (Annex-B well-formedness the splitter relies on); parameter sets come as SPS/PPS pairs"],
+    assumptions=COMMON_ASSUME + ["unit bodies are legal NAL contents: never 00 00 00/01/02 inside and no trailing zero (Annex-B well-formedness the splitter relies on); parameter sets come as SPS/PPS pairs"],
 ))
 
 def rand_c15(seed, tier, cases=None):
